@@ -57,6 +57,18 @@ T={
           "tbox_jsonrpc_test 20/20 pass with the change; demo_c14_1.cpp: retry callback runs 0 times with it, passes without"),
  'c14_2':('C14',"a batch containing a nested array (index incremented through a reference into a vector that was reallocated by the push of the nested array)",
           "tbox_jsonrpc_test 20/20 pass with the change; demo_c14_2.cpp: messages of nested batches delivered two or more times with it, passes without"),
+ 'c04_1':('C04',"the loop's last subscription (over all signals) removed and a new subscription made in the same loop turn (read event of the signal pipe not disabled before the pipe is closed; deferred delete; new pipe reuses the fd numbers and is never watched)",
+          "SignalEvent.* 11/11 pass with the change; demo_c04_1.cpp: B fires 0 times in steps 2 and 3 with it, passes without"),
+ 'c04_2':('C04',"a one-shot signal event initialised with more than one signal, then a delivery of its other signal or destruction of all events (one-shot path unsubscribes only the signal that fired)",
+          "SignalEvent.* 11/11 pass with the change; demo_c04_2.cpp: one-shot fires again and the SIGUSR1 disposition is not restored with it, passes without"),
+ 'c13_1':('C13',"non-empty history, then Up, then an Enter that stores nothing (empty line, 'history', failing '!n'), then Up and Enter again (browse position reset moved into the stored-line branch)",
+          "tbox_terminal_test 33/33 pass with the change; demo_history_browse.cpp executes 'probe a' instead of 'probe c' with it, passes without"),
+ 'c13_2':('C13',"telnet 'IAC DONT <opt>' split exactly after the command byte (frame-complete check folded into one min_size with DONT excluded): option byte read past the data, consumed bytes off by one, printable option byte lands in the edit line",
+          "tbox_terminal_test 33/33 pass with the change; demo_telnet_split_nego.cpp mismatches with it (ASan: heap-buffer-overflow at telnetd.cpp:224), passes without"),
+ 'c15_1':('C15',"a compression pointer to itself, or a label followed by a pointer back to that label (hop limit replaced by a 'must point backwards' test that compares with the position after the pointer)",
+          "tbox_network_test unchanged (23 pass / 5 offline failures on both trees); demo_ptr_loop.cpp: three loop packets die with SIGSEGV with it, passes without"),
+ 'c15_2':('C15',"a matching datagram that is then ignored (truncated, malformed, A record with rdlength != 4, SERVFAIL from a server that is not the last), followed by whatever would have completed the lookup (callback moved out before the reply is parsed)",
+          "tbox_network_test unchanged; demo_lookup_once.cpp: four scenarios report 0 callbacks with it, passes without"),
 }
 res={}
 for pid in set(v[0] for v in T.values()):
